@@ -218,6 +218,10 @@ m := {"k": acc, "n": len(acc)}
 type job struct {
 	Prog string `json:"prog"`
 	Tag  int    `json:"tag"`
+	// program "config" (config.go): the job's own options, script and API route
+	Config []optDesc `json:"config,omitempty"`
+	Src    string    `json:"src,omitempty"`
+	Route  string    `json:"route,omitempty"`
 }
 
 type request struct {
@@ -312,6 +316,16 @@ func main() {
 				results[i].Error = &m
 			}
 		}()
+		if j.Prog == "config" {
+			res, err := runConfigJob(ctx, j)
+			if err != nil {
+				m := err.Error()
+				results[i].Error = &m
+				return
+			}
+			results[i].Value = canon(res, 0)
+			return
+		}
 		p, ok := programs[j.Prog]
 		if !ok {
 			m := "unknown program"
